@@ -216,8 +216,25 @@ func digitPrefixHelper(fn *ssa.Function) string {
 		}
 		n++
 		v := ret.Results[0]
-		if sl, ok := v.(*ssa.Slice); ok && sl.X == ssa.Value(s) && sl.High == nil && (sl.Low == nil || isConstZero(sl.Low)) {
-			v = s
+		if sl, ok := v.(*ssa.Slice); ok && sl.X == ssa.Value(s) && (sl.Low == nil || isConstZero(sl.Low)) {
+			switch {
+			case sl.High == nil:
+				v = s
+			default:
+				// s[:end] where the loop is left, for a digits-only string, only by its guard end < len(s)
+				// becoming false: end is len(s) there
+				if ph, ok := sl.High.(*ssa.Phi); ok && ph.Block() == l.header {
+					if iff, ok := l.header.Instrs[len(l.header.Instrs)-1].(*ssa.If); ok {
+						if bo, ok := iff.Cond.(*ssa.BinOp); ok && bo.Op == token.LSS && bo.X == ssa.Value(ph) && !l.body[l.header.Succs[1]] {
+							if c, ok := bo.Y.(*ssa.Call); ok {
+								if bi, ok := c.Call.Value.(*ssa.Builtin); ok && bi.Name() == "len" && c.Call.Args[0] == ssa.Value(s) {
+									v = s
+								}
+							}
+						}
+					}
+				}
+			}
 		}
 		if v != ssa.Value(s) {
 			return "after the last character something other than the parameter is returned"
